@@ -54,14 +54,23 @@ fn trip<T: Serialize + DeserializeOwned + PartialEq>(v: &T, fmt: SerializationFo
     let path = dir.join(format!("t{}.{}", std::process::id(), ext));
     // The target of `save` may already exist (saving a library again after an edit): it starts out holding an
     // older, LONGER copy, so a `save` that does not replace the whole file leaves a tail behind.
-    std::fs::write(&path, format!("{}\n{}\n", text, text)).unwrap();
-    let (file_eq, file_bits) = match fmt.save(v, &path) {
-        Err(e) => return json!({"save_err": e.to_string()}),
-        Ok(()) => match fmt.open::<T>(&path) {
-            Ok(back) => (back == *v, encode_floats(&serde_json::to_value(&back).unwrap()) == orig),
-            Err(e) => return json!({"open_err": e.to_string(), "text": text}),
-        },
-    };
+    // ... and once a copy of ALMOST the same library (the same text with every blank doubled, i.e. one that differs only in
+    // white space, inside strings too), so a `save` that decides the file is "already up to date" is seen as well.
+    let mut file_eq = true;
+    let mut file_bits = true;
+    for old_content in [format!("{}\n{}\n", text, text), text.replace(' ', "  ")] {
+        std::fs::write(&path, old_content).unwrap();
+        match fmt.save(v, &path) {
+            Err(e) => return json!({"save_err": e.to_string()}),
+            Ok(()) => match fmt.open::<T>(&path) {
+                Ok(back) => {
+                    file_eq &= back == *v;
+                    file_bits &= encode_floats(&serde_json::to_value(&back).unwrap()) == orig;
+                }
+                Err(e) => return json!({"open_err": e.to_string(), "text": text}),
+            },
+        }
+    }
     let _ = std::fs::remove_file(&path);
     let ok = str_eq && str_bits && file_eq && file_bits;
     if ok && !want_text {
